@@ -176,7 +176,7 @@ func runC04(c *Ctx) {
 	calls := productCalls(productLeaves(o, true))
 	c.AddCount("product_calls", int64(len(calls)))
 	c.ParallelFor(int64(len(calls)), func(w *Worker, i int64) { c04check(w, calls[i], i) })
-	n := c.pick(1500000, 40000000)
+	n := c.pick(3000000, 40000000)
 	c.ParallelFor(n, func(w *Worker, i int64) {
 		r := newRng(c.Seed, 0xc04, uint64(i))
 		c04check(w, randCall(r, o), i)
